@@ -1,5 +1,5 @@
 //! Parser-level operations (C04, C05, C02, C01): real lexer + parser, canonical tree dump.
-use crate::dump;
+use crate::dump::{self, RangeEnd};
 use crate::gen_prog::{self, Layout};
 use crate::gen_text;
 use crate::rng::Rng;
@@ -47,6 +47,15 @@ pub fn run(op: &str, args: &[&str]) -> Option<String> {
             let prog = parser::parse(&toks);
             Some(dump::program(&prog))
         }
+        ("PROPCONTAIN", [t0, t1, k, n]) => {
+            Some(contain(&unhex_str(t0)?, &unhex_str(t1)?, k.parse().ok()?, n.parse().ok()?))
+        }
+        ("SPECPARSE", [t]) => {
+            let text = unhex_str(t)?;
+            let toks = lexer::lex(&text);
+            let prog = parser::parse(&toks);
+            Some(dump::program(&prog))
+        }
         ("NEW", [t]) => {
             use spl_frontend::{AnalyzedSource, ErrorContainer};
             let text = unhex_str(t)?;
@@ -61,6 +70,131 @@ pub fn run(op: &str, args: &[&str]) -> Option<String> {
         }
         _ => None,
     }
+}
+
+/// C04: valid programs under varied layouts: PARSE (impl vs model) + SPECPARSE (impl vs grammar spec).
+pub fn gen_c04(rng: &mut Rng, n: usize, out: &mut Vec<String>) {
+    for i in 0..n {
+        let prog = gen_prog::gen(rng, 3, 4, if i % 5 == 0 { 5 } else { 3 });
+        // the same token sequence under two layouts, one of them with comments in any gap
+        for k in 0..2 {
+            let lo = Layout { comment_pct: if k == 0 { 0 } else { 20 }, comment_gaps: None, compact: rng.chance(1, 4) };
+            let text = gen_prog::layout(rng, &prog.toks, &lo).0;
+            let h = hex_str(&text);
+            out.push(format!("PARSE {}", h));
+            out.push(format!("SPECPARSE {}", h));
+        }
+    }
+}
+
+/// C05: a valid program with >= 2 declarations, one non-keyword token of one declaration damaged.
+pub fn gen_c05(rng: &mut Rng, n: usize, out: &mut Vec<String>) {
+    let mut made = 0;
+    while made < n {
+        let prog = gen_prog::gen(rng, 3, 4, 2);
+        let ndecl = prog.order.len();
+        if ndecl < 2 {
+            continue;
+        }
+        let k = rng.below(ndecl);
+        // comments are part of the shared token list (so both versions carry the same ones)
+        let with_comments = rng.chance(1, 3);
+        let mut base: Vec<gen_prog::Tok> = Vec::new();
+        for (i, t) in prog.toks.iter().enumerate() {
+            if with_comments && gen_prog::LEADING_GAPS.contains(&t.gap) && rng.chance(1, 4) {
+                let mut c = t.clone();
+                c.text = format!("// c{}\n", i);
+                c.gap = "comment";
+                base.push(c);
+            }
+            base.push(t.clone());
+        }
+        let idxs: Vec<usize> = (0..base.len()).filter(|&i| base[i].decl == k && base[i].gap != "comment").collect();
+        let j = *rng.pick(&idxs);
+        let mut damaged = base.clone();
+        let what = rng.below(3);
+        let is_kw = |t: &str| t == "proc" || t == "type";
+        let repl = *rng.pick(gen_prog::TOKEN_ALPHABET);
+        match what {
+            0 => {
+                if is_kw(&damaged[j].text) { continue; }
+                damaged.remove(j);
+            }
+            1 => {
+                let mut t = damaged[j].clone();
+                t.text = repl.to_string();
+                damaged.insert(j, t);
+            }
+            _ => {
+                if is_kw(&damaged[j].text) { continue; }
+                damaged[j].text = repl.to_string();
+            }
+        }
+        let lo = Layout { comment_pct: 0, comment_gaps: None, compact: true };
+        let t0 = gen_prog::layout(rng, &base, &lo).0;
+        let t1 = gen_prog::layout(rng, &damaged, &lo).0;
+        out.push(format!("PROPCONTAIN {} {} {} {}", hex_str(&t0), hex_str(&t1), k, ndecl));
+        out.push(format!("NEW {}", hex_str(&t1)));
+        made += 1;
+    }
+}
+
+fn strip_offset(s: &str) -> &str {
+    // "+12:(...)" -> "(...)"
+    s.split_once(':').map(|x| x.1).unwrap_or(s)
+}
+
+/// The property C05 on the implementation: undamaged declarations keep their sub-trees and table
+/// entries; every syntax diagnostic lies inside the damaged segment.
+fn contain(t0: &str, t1: &str, k: usize, n: usize) -> String {
+    use spl_frontend::error::ErrorMessage;
+    use spl_frontend::{AnalyzedSource, ErrorContainer};
+    let a = AnalyzedSource::new(t0.to_string());
+    let b = AnalyzedSource::new(t1.to_string());
+    let da: Vec<String> = a.ast.global_declarations.iter().map(|r| dump::global_ref(r)).collect();
+    let db: Vec<String> = b.ast.global_declarations.iter().map(|r| dump::global_ref(r)).collect();
+    if da.len() != n {
+        return format!("bad:original-has-{}-declarations", da.len());
+    }
+    let suffix = n - k - 1;
+    if db.len() < k + suffix {
+        return format!("bad:damaged-program-has-only-{}-declarations", db.len());
+    }
+    // parse trees are compared without build/semantic messages (those may legitimately change)
+    let strip = |s: &str| -> String { dump::strip_sem(s) };
+    for i in 0..k {
+        if strip(&da[i]) != strip(&db[i]) {
+            return format!("bad:declaration-{}-before-the-damage-changed", i);
+        }
+    }
+    for i in 0..suffix {
+        let x = &da[n - 1 - i];
+        let y = &db[db.len() - 1 - i];
+        if strip(strip_offset(x)) != strip(strip_offset(y)) {
+            return format!("bad:declaration-{}-after-the-damage-changed", n - 1 - i);
+        }
+    }
+    // syntax diagnostics inside the damaged segment (byte positions in the damaged text)
+    let seg_lo = if k == 0 { 0 } else {
+        let g = &b.ast.global_declarations[k - 1];
+        let end_tok = g.offset + g.to_range_end();
+        b.tokens[end_tok - 1].range.end
+    };
+    let seg_hi = if suffix == 0 { t1.len() } else {
+        let g = &b.ast.global_declarations[db.len() - suffix];
+        // first non-comment token of the next declaration
+        let mut i = g.offset;
+        while matches!(b.tokens[i].token_type, spl_frontend::tokens::TokenType::Comment(_)) { i += 1; }
+        b.tokens[i].range.start
+    };
+    for e in b.errors() {
+        if matches!(e.1, ErrorMessage::LexErrorMessage(_) | ErrorMessage::ParseErrorMessage(_)) {
+            if e.0.start < seg_lo || e.0.end > seg_hi {
+                return format!("bad:syntax-diagnostic-{}-{}-outside-damaged-declaration-{}-{}", e.0.start, e.0.end, seg_lo, seg_hi);
+            }
+        }
+    }
+    "ok".into()
 }
 
 pub fn gen_new(rng: &mut Rng, n: usize, out: &mut Vec<String>) {
